@@ -322,6 +322,14 @@ def ref_solution(spec, theta, x0, ts):
     return sol.y.T            # len(ts) x nS
 
 
+MAX_RHS_EVALS = 20000
+NFEV = [0]
+
+
+class _TooManyEvals(Exception):
+    pass
+
+
 def integ_check(spec, mode, m=None):
     """integrated sensitivities of the real augmented system vs central finite differences of reference solutions"""
     from scipy.integrate import solve_ivp
@@ -344,10 +352,26 @@ def integ_check(spec, mode, m=None):
     else:
         z0 = np.concatenate([x0, np.zeros(nS * nP)])
         fn = (lambda t, z: m.ode_and_sensitivity(z, t, by_state=True)) if mode == "by_state" else (lambda t, z: m.ode_and_sensitivity(z, t))
+    raw_fn, count = fn, [0]
+
+    def fn(t, z):
+        # a right-hand side that is not a function of (t, z) -- one that depends on the calls made before -- makes the
+        # step-size control reject for ever; the unchanged code needs a few thousand evaluations here
+        count[0] += 1
+        if count[0] > MAX_RHS_EVALS:
+            raise _TooManyEvals()
+        return raw_fn(t, z)
     try:
         sol = solve_ivp(fn, (0.0, ts[-1]), z0, method="DOP853", t_eval=ts, rtol=1e-11, atol=1e-13)
+    except _TooManyEvals:
+        z1 = np.array(z0) + 0.01
+        a, _, b = raw_fn(0.3, z1), raw_fn(0.4, z1 * 1.5), raw_fn(0.3, z1)
+        return ("integrated-" + CLS[mode], "integrating the %s system over [0, 1] (DOP853, rtol 1e-11) had not finished after %d "
+                "evaluations of the right-hand side; two evaluations at one and the same point differ by %.3g"
+                % (mode, MAX_RHS_EVALS, float(np.abs(np.asarray(a) - np.asarray(b)).max())), None)
     except Exception as e:      # noqa: B902
         return ("integrated-" + CLS[mode], "integrating the %s system raised %s: %s" % (mode, type(e).__name__, e), None)
+    NFEV[0] = max(NFEV[0], count[0])
     if not sol.success:
         raise common.InternalError("integration of the augmented system failed: " + sol.message)
     Z = sol.y.T
@@ -550,6 +574,7 @@ def run_search(ck):
                 worst["integrated"] = max(worst["integrated"], err)
     ck.notes["search_shape_distribution"] = dist
     ck.notes["search_observed_max_error"] = worst
+    ck.notes["integrated_max_rhs_evaluations"] = NFEV[0]
 
 
 # ====================================================================== driver
